@@ -177,7 +177,7 @@ class PropertyRun:
                     sc.apply_unit(u)
                 for u in group:
                     hs = [h for h in u.harnesses if (h.tier == 'quick' or self.tier == 'thorough')
-                          and h.obligation.startswith(self.pid + '.')]
+                          and (h.obligation.startswith(self.pid + '.') or self.pid in h.also)]
                     if not hs:
                         continue
                     info = K.run_unit(sc, u, hs, self.work)
